@@ -2,6 +2,7 @@ mod harness;
 mod obs;
 mod props;
 mod refmodel;
+mod registry;
 mod refwalk;
 mod runner;
 mod world;
@@ -18,6 +19,8 @@ fn main() {
     "C02" => runner::dispatch(props::c02::spec(), &args),
     "C03" => runner::dispatch(props::c03::spec(), &args),
     "C04" => runner::dispatch(props::c04::spec(), &args),
+    "C06" => runner::dispatch(props::c06::spec(), &args),
+    "C07" => runner::dispatch(props::c07::spec(), &args),
     "C14" => runner::dispatch(props::c14::spec(), &args),
     "C15" => runner::dispatch(props::c15::spec(), &args),
     "C19" => runner::dispatch(props::c19::spec(), &args),
